@@ -285,6 +285,12 @@ func verif_x_tableIndex_entrySuffixMatches(ti tableIndex, idx uint32, h *hash.Ha
 	return ti.entrySuffixMatches(idx, h)
 }
 
+func verif_x_quota_AcquireUint64(q MemoryQuotaProvider, ctx context.Context, sz int) (s []uint64, err error) {
+	return q.AcquireQuotaUint64Slice(ctx, sz)
+}
+func verif_x_tableIndex_prefixes(ti tableIndex, ctx context.Context) (p []uint64, cleanup func(), err error) {
+	return ti.prefixes(ctx)
+}
 func verif_x_tableIndex_chunkCount(ti tableIndex) (n uint32) { return ti.chunkCount() }
 
 // verif_idxCount / verif_idxSfx: what a table index answers, as (uninterpreted) functions of the index and the
